@@ -1594,6 +1594,11 @@ pub fn registry(rng: &mut Rng) -> Program {
         fresh.entry = Entry::Spawn;
         fresh.at_setup = false;
         fresh.holders = vec![];
+        // a service whose started() itself goes through the registry (subscribes to a broker topic)
+        if g.rng.chance(1, 4) {
+            fresh.started = vec![SStep::Subscribe(0)];
+            g.prog.topics = vec![0];
+        }
         g.prog.actors.push(fresh);
     }
     g.layout(nclients);
